@@ -292,3 +292,32 @@ def make_search(complement):
 
 make_search(False)
 make_search(True)
+
+
+@vc('C13.search.wrappers', functions=[RX + 'search', RX + 'searchcomplement', RX + 'SearchView.__init__', RX + 'SearchView.__iter__'], props=['C13'],
+    assumptions=['generator functions are lazy: calling one binds its arguments'])
+def search_wrappers(h):
+    """search(t, [field,] pattern, flags=, complement=) and searchcomplement(...) build the same view from the same arguments -- field,
+    pattern and flags identical, only `complement` differs -- so the two results partition the table (C13.itersearch.*); the view hands
+    exactly these to itersearch."""
+    for with_field in (False, True):
+        def body(ctx, with_field=with_field):
+            it = h.interp(ctx)
+            T = Opaque('table', 't')
+            field, pattern, flags = sym_cell('field'), sym_cell('pattern'), sym_cell('flags')
+            args = [T, field, pattern] if with_field else [T, pattern]
+            res = {}
+            for name, comp in (('search', False), ('searchcomplement', True)):
+                v = it.call(closure_of(it, RX + name), list(args), {'flags': flags})
+                a = getattr(v, 'attrs', {})
+                ok = a.get('table') is T and a.get('pattern') is pattern and a.get('flags') is flags and \
+                    (a.get('field') is field if with_field else a.get('field') is None) and a.get('complement') is comp
+                ctx.oblige('%s: the view gets the table, %s, the pattern, the caller\'s flags and complement=%s' % (name, 'the field' if with_field else 'no field (whole row)', comp),
+                           z3.BoolVal(bool(ok)))
+                cls = closure_of(it, RX + 'SearchView')
+                g = it.call(cls.find('__iter__')[0], [v], {})
+                e = g.env.vars if isinstance(g, bi.GenObj) else {}
+                ok2 = isinstance(g, bi.GenObj) and g.fn.qualname == RX + 'itersearch' and e.get('table') is T and e.get('pattern') is pattern and e.get('flags') is flags \
+                    and e.get('complement') is comp and (e.get('field') is field if with_field else e.get('field') is None)
+                ctx.oblige('%s: iterating the view runs itersearch with exactly these arguments' % name, z3.BoolVal(bool(ok2)))
+        h.explore(body)
